@@ -159,6 +159,9 @@ class GQueue:
         self.ctl.record("qput", self.name, self.ctl.me(), item)
         with self.ctl.cv:
             self.ctl.unblock(("get", self.name))
+        # a second scheduling point AFTER the item became visible: the consumer may run before the producer's next statement
+        # (needed to reach both orders of "producer writes shared state after put" vs "consumer reads it after get")
+        self.ctl.yield_point(("put_done", self.name))
 
     def put_nowait(self, item):
         self.put(item, block=False)
